@@ -4,7 +4,7 @@
 From Coq Require Import Permutation Sorted.
 From TkModel Require Import Base Dec Acct Balance.
 From TkSpec Require Import Balance_spec.
-From TkProofs Require Import Balance_proofs.
+From TkProofs Require Import Balance_proofs Balance_more_proofs.
 Local Open Scope Z_scope.
 
 (* hypotheses shared by all statements:
@@ -67,6 +67,26 @@ Theorem C02_delta_zero : forall known ord ps rep,
   forall c d, In (c, d) (b_deltas rep) -> d28 d = 0.
 Proof. exact report_delta_zero. Qed.
 Print Assumptions C02_delta_zero.
+
+(* every figure of the report stays inside the 28-decimal type *)
+Theorem C02_scales : forall known ord ps rows,
+  (forall l, Permutation (ord l) l) -> Forall bpost_wf ps ->
+  balance known ord ps = Some rows ->
+  forall r, In r rows -> dwf (r_own r) /\ dwf (r_tree r).
+Proof. exact balance_rows_dwf. Qed.
+Print Assumptions C02_scales.
+
+(* for ANY two hash orders and any permutation of the postings the balance lists the same
+   keys in the same order with the same numbers (C04 uses this) *)
+Theorem C02_numbers_order_free : forall known ord ord' ps ps' rows rows',
+  (forall l, Permutation (ord l) l) -> (forall l, Permutation (ord' l) l) ->
+  Forall bpost_wf ps -> Permutation ps ps' ->
+  balance known ord ps = Some rows -> balance known ord' ps' = Some rows' ->
+  map r_key rows' = map r_key rows
+  /\ (forall r r', In r rows -> In r' rows' -> r_key r = r_key r' ->
+        d28 (r_own r) = d28 (r_own r') /\ d28 (r_tree r) = d28 (r_tree r')).
+Proof. exact balance_numbers_perm. Qed.
+Print Assumptions C02_numbers_order_free.
 
 (* the executable oracle used on the implementation's output is sound for the
    specification it is named after (so a `true` of the oracle means the property) *)
